@@ -15,7 +15,7 @@ import (
 // model's state must be quiescent and the file server must have seen FidDestroy exactly once for
 // every fid object.
 func genC11fid(c *Ctx) {
-	genFidTable(c, "C11", []string{"retain-vs-close", "dying-reuse", "mixed"}, c.scale(90, 3000))
+	genFidTable(c, "C11", []string{"retain-vs-close", "dying-reuse", "mixed", "destroy-overlap"}, c.scale(120, 4000))
 }
 
 func genFidTable(c *Ctx, prop string, kinds []string, n int) {
@@ -122,6 +122,31 @@ func genFidTable(c *Ctx, prop string, kinds []string, n int) {
 				s.rpc(54, func(fc *g.Fcall) error { return g.PackTclunk(fc, x) })
 			}
 			s.c.Close()
+		case "destroy-overlap":
+			// Conn.close is between marking a fid destroyed and telling the file server when the
+			// Tclunk (or Tremove) that was executing on that fid completes and destroys it too
+			x := uint32(1 + r.Intn(nf))
+			p := s.parkFidRule("fid.destroy.call", x, 0)
+			parks = append(parks, p)
+			rid := s.nreqs()
+			f0 := s.nframes()
+			s.mu.Lock()
+			s.plans[rid] = plan{gate: true, async: r.Intn(3) == 0}
+			s.mu.Unlock()
+			if r.Intn(2) == 0 {
+				s.write(s.send(50, func(fc *g.Fcall) error { return g.PackTclunk(fc, x) }))
+			} else {
+				s.write(s.send(50, func(fc *g.Fcall) error { return g.PackTremove(fc, x) }))
+			}
+			s.waitEntered([]int{rid}, f0, 2*time.Second)
+			s.c.Close()
+			if waitc(p.reached, 2*time.Second) {
+				c.count("destroy-overlap:close-parked")
+			}
+			s.release(rid)
+			time.Sleep(time.Duration(500+r.Intn(2000)) * time.Microsecond)
+			close(p.release)
+			parks = nil
 		case "mixed":
 			// a burst of pipelined walks, stats and clunks with goroutines parked all over the fid
 			// table, and a disconnect in the middle of it
